@@ -1,0 +1,94 @@
+//go:build verif
+
+// Verification hook (compiled only with -tags verif, add-only): apply the real per-instruction
+// transfer function of the escape analysis to a graph, one instruction at a time, with the nodes of
+// the function indexed in a VerifUniverse (tie M11 of /verif: escape.go's instruction cases versus
+// the Lean model's primitive operations).
+package escape
+
+import (
+	"sort"
+
+	"github.com/awslabs/ar-go-tools/analysis/config"
+	"golang.org/x/tools/go/ssa"
+)
+
+// VerifInstrSession holds the analysis state of one function analysed in isolation.
+type VerifInstrSession struct {
+	ea *functionAnalysisState
+	U  *VerifUniverse
+}
+
+// VerifNewInstrSession prepares the state of f (as EscapeSummary does) and indexes, in a fixed
+// order, the nodes of the initial graph, the value node of every parameter, free variable and
+// value-producing instruction, the nil node and the allocation node of every Alloc.
+func VerifNewInstrSession(f *ssa.Function) *VerifInstrSession {
+	prog := &ProgramAnalysisState{
+		make(map[*ssa.Function]*functionAnalysisState),
+		newGlobalNodeGroup(),
+		config.NewLogGroup(config.NewDefault()),
+		nil,
+		false,
+	}
+	ea := newFunctionAnalysisState(f, prog, config.EscapeBehaviorSummarize)
+	s := &VerifInstrSession{ea: ea, U: &VerifUniverse{index: map[*Node]int{}, Group: ea.nodes}}
+	// nodes of the initial graph, by number
+	var init []*Node
+	for n := range ea.initialGraph.status {
+		init = append(init, n)
+	}
+	sort.Slice(init, func(i, j int) bool { return init[i].number < init[j].number })
+	for _, n := range init {
+		s.register(n)
+	}
+	s.register(ea.nodes.NilNode())
+	for _, p := range f.Params {
+		s.register(ea.nodes.ValueNode(p))
+	}
+	for _, p := range f.FreeVars {
+		s.register(ea.nodes.ValueNode(p))
+	}
+	for _, b := range f.Blocks {
+		for _, ins := range b.Instrs {
+			if v, ok := ins.(ssa.Value); ok {
+				if _, isRange := ins.(*ssa.Range); !isRange {
+					s.register(ea.nodes.ValueNode(v))
+				}
+			}
+			if a, ok := ins.(*ssa.Alloc); ok {
+				s.register(ea.nodes.AllocNode(a, NillableDerefType(a.Type())))
+			}
+		}
+	}
+	return s
+}
+
+func (s *VerifInstrSession) register(n *Node) int {
+	if i, ok := s.U.index[n]; ok {
+		return i
+	}
+	s.U.index[n] = len(s.U.Nodes)
+	s.U.Nodes = append(s.U.Nodes, n)
+	return len(s.U.Nodes) - 1
+}
+
+// Initial returns a copy of the function's initial graph.
+func (s *VerifInstrSession) Initial() *EscapeGraph { return s.ea.initialGraph.Clone() }
+
+// ValueIndex is the universe index of the value node of v (nil constants map to the nil node).
+func (s *VerifInstrSession) ValueIndex(v ssa.Value) int { return s.register(s.ea.nodes.ValueNode(v)) }
+
+// AllocIndex is the universe index of the allocation node of an Alloc instruction.
+func (s *VerifInstrSession) AllocIndex(a *ssa.Alloc) int {
+	return s.register(s.ea.nodes.AllocNode(a, NillableDerefType(a.Type())))
+}
+
+// Transfer applies the real transferFunction of the instruction to g (in place).
+func (s *VerifInstrSession) Transfer(g *EscapeGraph, instr ssa.Instruction) {
+	s.ea.transferFunction(instr, g)
+}
+
+// Locality is instructionLocality(instr, g) == nil.
+func (s *VerifInstrSession) Locality(g *EscapeGraph, instr ssa.Instruction) bool {
+	return instructionLocality(instr, g) == nil
+}
